@@ -105,6 +105,9 @@ type Contract struct {
 	Fresh     []string // results that are freshly allocated
 	NoAlias   bool
 	Declass   []string
+	DeclassText  []string // raw `declassify <expr text> : <reason>` clauses (constant-time contracts)
+	PublicResult bool
+	PublicResults map[int]bool
 	GhostVars []GhostStmt
 	Ghost     []GhostStmt
 	Params    []string // for assumed externals: parameter names override
@@ -489,6 +492,8 @@ func (eng *Engine) loadContractFile(file string) error {
 			cur.Inst[callee] = m
 		case "use_axiom":
 			cur.UseAxioms = append(cur.UseAxioms, strings.Fields(strings.ReplaceAll(rest, ",", " "))...)
+		case "ring_mod", "ring_in", "ring_const", "ring_cond", "ring_out", "ring_alias", "ring_relation":
+			// ring-mode contracts (ring.go) read the raw clauses
 		case "asm_allow", "asm_stub", "asm_dom", "asm_copy":
 			// clauses for the assembly verifier (asmvc) only
 		case "opaque_products":
@@ -509,6 +514,21 @@ func (eng *Engine) loadContractFile(file string) error {
 			}
 		case "declassify":
 			cur.Declass = append(cur.Declass, strings.Fields(strings.ReplaceAll(rest, ",", " "))...)
+			cur.DeclassText = append(cur.DeclassText, rest)
+		case "public_result":
+			if strings.TrimSpace(rest) == "" {
+				cur.PublicResult = true
+			}
+			for _, f := range strings.Fields(strings.ReplaceAll(rest, ",", " ")) {
+				var n int
+				if _, err := fmt.Sscan(f, &n); err != nil {
+					return errf("public_result takes result indices")
+				}
+				if cur.PublicResults == nil {
+					cur.PublicResults = map[int]bool{}
+				}
+				cur.PublicResults[n] = true
+			}
 		case "fresh":
 			cur.Fresh = append(cur.Fresh, strings.Fields(strings.ReplaceAll(rest, ",", " "))...)
 		case "requires", "ensures", "trusted_ensures", "panics_if", "invariant", "case", "lemma", "fact":
@@ -649,6 +669,24 @@ func termSize(t *Term, limit int) int {
 func normSpace(s string) string { return strings.Join(strings.Fields(s), " ") }
 
 var srcCache = map[string][]byte{}
+
+// nodeText returns the source text of a node.
+func (eng *Engine) nodeText(fset *token.FileSet, n ast.Node) string {
+	f := fset.File(n.Pos())
+	if f == nil {
+		return ""
+	}
+	data, ok := srcCache[f.Name()]
+	if !ok {
+		data, _ = os.ReadFile(f.Name())
+		srcCache[f.Name()] = data
+	}
+	a, b := f.Offset(n.Pos()), f.Offset(n.End())
+	if a < 0 || b > len(data) || a > b {
+		return ""
+	}
+	return string(data[a:b])
+}
 
 func (ex *exec) stmtText(s ast.Stmt) string {
 	f := ex.eng.fset.File(s.Pos())
